@@ -147,6 +147,17 @@ CHECKS = {
         "well-formed grammar are free. Agreement of the transcription with the real parser's internal states is reported as drift, never as a violation.",
    technique="TLA+ specs Numeral (structural oracle) + NumericParser (transcription) + TLC over all short strings; S->I replay via hook H5 and a real tokenizer; I->S trace validation (Trace_Numeral)",
    design="4 C15"),
+ "C14": dict(
+   category="model_checking",
+   text="PathRewrite.tla defines IsMerge (each token of the rewritten path covers a run of consecutive tokens of the path before; a joined token has the union of the character and byte ranges, the "
+        "concatenated dictionary-side surface and the prescribed part of speech - the numeral POS of its first token / the configured OOV POS -; every other token is unchanged, except that the "
+        "numeral plugin may replace a single numeral's normalised form). MC_PathRewrite.tla transcribes both index loops (restart indices, comma/period modes, NOOOVBOW skipping) on top of the "
+        "transcribed numeral parser and TLC checks IsMerge and termination for all paths of up to 4 (thorough 5) one-character tokens over 11 token kinds x minLength x enableNormalize. Every "
+        "enumerated path is also run through the real plugins: the recorded paths before/after each plugin (hook H3) are trace-validated against IsMerge; recorded analyses under 6 plugin "
+        "settings/orders are validated the same way and their boundaries compared with the analysis without path-rewrite plugins.",
+   note="Trusted: TLC, JSON bridge, hook H3. Exact agreement of the transcribed loops with the real plugins is drift only (C14 does not fix which runs are joined).",
+   technique="TLA+ spec PathRewrite (IsMerge) + transcribed loops model-checked by TLC; I->S trace validation of hook-recorded paths (Trace_PathRewrite), incl. all TLC-enumerated inputs",
+   design="4 C14"),
 }
 
 NOT_YET = "no check registered yet in this revision (work in progress; see DESIGN.md section 8 build order)"
